@@ -96,7 +96,7 @@ def check(ctx):
     ctx.rule("R10.5", "a refresh guarded by a comparison with a remembered baseline is exact, or the baseline "
                       "is reassigned only where the refresh runs; screening refreshes are unconditional", 2)
     ctx.rule("R10.6", "with screening on, every definition of the induced potential reaches the psi update only through a refresh "
-                      "with applied + induced potential", 2)
+                      "with applied + induced potential (predicate on the 180 traces of update())", 1)
     ctx.rule("R10.7", "no caller builds the order-parameter operators without link variables (None) when a later refresh "
                       "would store complex link variables into the real-dtype matrices", 3)
     f_set = repo.func(OPS, "MeshOperators.set_link_exponents")
@@ -177,155 +177,71 @@ def update_roles(fn):
 
 
 def check_triggers(ctx):
+    """R10.5 / R10.6 as predicates on the traces of update() (pvs/update_trace.py, 180 scenarios): at every psi update the link
+    variables last handed to the operators are those of the vector potential of that moment, and the remembered applied potential
+    is the one of this step - however update() is arranged."""
+    from ..update_trace import all_traces
+    from ..smallstep import Opaque as SO, render
     repo = ctx.repo
     fu = repo.func(SOLVER, "TDGLSolver.update")
-    fn = fu.node
-    induced, applied = update_roles(fn)
-    pm = parent_map(fn)
-    env = repo.local_types(fu)
-    calls = []
-    for n in own_nodes(fn):
-        if isinstance(n, ast.Call):
-            r = repo.resolve_call(fu, n, env)
-            if getattr(r, "fq", None) == f"{OPS}:MeshOperators.set_link_exponents":
-                calls.append(n)
-    if len(calls) < 2:
-        raise AnalysisError(f"expected >=2 set_link_exponents call sites in TDGLSolver.update, found {len(calls)}")
-    ctx.note("refresh_call_sites", [f"L{c.lineno}: {norm(c)}" for c in calls])
-    self_assigns = {}
-    for n in own_nodes(fn):
-        if isinstance(n, (ast.Assign, ast.AugAssign)):
-            tg = n.targets if isinstance(n, ast.Assign) else [n.target]
-            for t in tg:
-                for x in ast.walk(t):
-                    if isinstance(x, ast.Attribute) and isinstance(x.value, ast.Name) and x.value.id == "self" \
-                            and isinstance(x.ctx, ast.Store):
-                        self_assigns.setdefault(x.attr, []).append(n)
-    seen_dynamic = seen_screening = False
-    for call in calls:
-        stmt = call
-        while not isinstance(stmt, ast.stmt):
-            stmt = pm[id(stmt)][0]
-        guards = guards_of(fn, stmt, pm)
-        arg_names = {x.id for a in call.args for x in ast.walk(a) if isinstance(x, ast.Name)}
-        value_guards = []
-        flags = []
-        for g, br in guards:
-            if isinstance(g, ast.If):
-                names = {x.id for x in ast.walk(g.test) if isinstance(x, ast.Name)}
-                if names & arg_names:
-                    value_guards.append((g, br))
-                else:
-                    flags.append(f"{norm(g.test)} is {br}")
-        inst = f"L{call.lineno} {norm(call)} under [{'; '.join(flags)}]"
-        if induced in arg_names:
-            seen_screening = True
-            ok = not value_guards and any("include_screening" in f for f in flags) and \
-                any(isinstance(g, (ast.For, ast.While)) for g, _ in guards)
-            ctx.ob("R10.5", f"screening refresh unconditional inside the loop: {inst}", ok,
-                   detail={"guards": flags, "value_guards": [norm(g.test) for g, _ in value_guards]},
-                   where=fu.fq, construct=norm(call), loc=loc(fu, call),
-                   message="the per-iteration screening refresh is guarded by a value comparison or is outside the loop",
-                   consequence="a screening iteration runs with link variables of an earlier induced potential")
-            continue
-        seen_dynamic = True
-        if not value_guards:
-            ctx.ob("R10.5", f"refresh unconditional w.r.t. values: {inst}", True, detail={"guards": flags},
-                   where=fu.fq, construct=norm(call))
-            continue
-        for g, br in value_guards:
-            cmp_calls = [c for c in ast.walk(g.test) if isinstance(c, ast.Call) and isinstance(c.func, ast.Attribute)]
-            kinds = {c.func.attr for c in cmp_calls}
-            has_ne = any(isinstance(c, ast.Compare) and any(isinstance(o, (ast.NotEq, ast.Eq)) for o in c.ops)
-                         for c in ast.walk(g.test))
-            baselines = {x.attr for x in ast.walk(g.test)
-                         if isinstance(x, ast.Attribute) and isinstance(x.value, ast.Name) and x.value.id == "self"
-                         and x.attr not in ("xp",)}
-            if kinds & TOLERANT_CMP:
-                # baseline must be reassigned only on the path that performs the refresh
-                bad = []
-                for bname in sorted(baselines):
-                    for a in self_assigns.get(bname, []):
-                        ag = guards_of(fn, a, pm)
-                        if not any(gg is g and bb == br for gg, bb in ag):
-                            bad.append(f"L{a.lineno}: {norm(a)}")
-                ok = not bad and bool(baselines)
-                ctx.ob("R10.5", f"tolerance-guarded refresh keeps its baseline: {inst}", ok,
-                       detail={"guard": norm(g.test), "baseline": sorted(baselines), "baseline_reassigned_outside": bad},
-                       where=fu.fq, construct=f"if {norm(g.test)}: {norm(call)}", loc=loc(fu, g),
-                       message=f"refresh is skipped when `{norm(g.test)}` is false (tolerance test) but the baseline "
-                               f"{sorted(baselines)} is overwritten regardless at {bad}: sub-tolerance changes are "
-                               f"dropped and forgotten",
-                       consequence="a vector potential ramped by less than rtol=1e-5 per step never refreshes the "
-                                   "link variables (e.g. LinearRamp over 20000 steps: 0 refreshes, stale operators)",
-                       witness={"guard": norm(g.test), "baseline_writes": bad})
-            elif (kinds & EXACT_CMP) or has_ne:
-                # the remembered baseline must be brought up to date on every path after the guard, otherwise a potential
-                # that later returns to the stale baseline is taken for "unchanged"
-                from ..cfg import build_cfg
-                cfg = build_cfg(fn)
-                gnode = cfg.node_of(g).id
-                argtxt = norm(call.args[0]) if call.args else "?"
-                upd = [cfg.node_of(a).id for bname in sorted(baselines) for a in self_assigns.get(bname, [])
-                       if isinstance(a, ast.Assign) and norm(a.value) == argtxt]
-                wit = cfg.path(gnode, cfg.exit, skip=upd, skip_edges=("exc",))
-                ctx.ob("R10.5", f"exactly-guarded refresh keeps its baseline current: {inst}", wit is None and bool(baselines),
-                       detail={"guard": norm(g.test), "baseline": sorted(baselines),
-                               "path_without_baseline_update": cfg.describe_path(wit)[-8:] if wit else None},
-                       where=fu.fq, construct=f"if {norm(g.test)}: {norm(call)} [baseline update]", loc=loc(fu, g),
-                       message=f"after `if {norm(g.test)}` there is a path to the end of update() on which the baseline "
-                               f"{sorted(baselines)} is not set to `{argtxt}`: the reference goes stale",
-                       consequence="a vector potential that changes and later returns to the stale reference value (pulse 0 -> B -> 0) "
-                                   "is taken for unchanged and the operators of the previous value stay in use",
-                       witness={"path": cfg.describe_path(wit)[-8:] if wit else None})
-            else:
-                ctx.ob("R10.5", f"refresh guard of unknown kind: {inst}", False, detail={"guard": norm(g.test)},
-                       where=fu.fq, construct=f"if {norm(g.test)}: {norm(call)}", loc=loc(fu, g),
-                       message=f"refresh guarded by `{norm(g.test)}`, which is neither an exact nor a recognised "
-                               f"tolerance comparison",
-                       consequence="cannot show the operators follow the vector potential")
-    ctx.ob("R10.5", "update() refreshes the operators both for a time-dependent applied potential and for the induced potential",
-           seen_dynamic and seen_screening, detail={"dynamic_site": seen_dynamic, "screening_site": seen_screening,
-                                                    "calls": [norm(c) for c in calls]},
-           where=fu.fq, construct="refresh sites of update()", loc=loc(fu, fn),
-           message="one of the two refresh sites (applied potential / applied + induced potential) is missing",
+    traces = all_traces(repo)
+    ctx.note("update_trace_scenarios", len(traces))
+
+    def terms(v):
+        """the summands of a symbolic sum"""
+        if isinstance(v, SO) and v.parts and v.parts[0] == "Add":
+            return terms(v.parts[1]) + terms(v.parts[2])
+        return [render(v)]
+    stale, stale6, base_bad, tol_bad = [], [], [], []
+    n_refresh = 0
+    for t in traces:
+        sc = t.scenario
+        tag = ", ".join(f"{k}={v}" for k, v in sc.items() if k != "max_iterations")
+        applied_now = "A_new" if sc["dynamic_A"] != "off" else "self.current_A_applied"
+        eulers = t.calls("adaptive_euler_step")
+        if not eulers:
+            raise AnalysisError(f"update() performs no psi update in scenario [{tag}]")
+        for k, ev in enumerate(eulers):
+            before = [e for e in t.events[:t.index(ev)] if e.kind == "call" and e.name.endswith("set_link_exponents")]
+            n_refresh += len(before)
+            last = sorted(terms(before[-1].args[0])) if before and before[-1].args else None
+            induced_now = "induced_vector_potential" if k == 0 else f"A#{k - 1}"
+            if sc["screening"]:
+                if last != sorted([applied_now, induced_now]):
+                    stale6.append(f"[{tag}] psi update #{k} runs after set_link_exponents({last}); the potential is {applied_now} + {induced_now}")
+            elif sc["dynamic_A"] == "changed":
+                if last is None or applied_now not in last or any(x.startswith("A#") for x in last):
+                    stale.append(f"[{tag}] psi update #{k} runs after set_link_exponents({last}) although the applied potential changed to {applied_now}")
+        # the remembered applied potential
+        if sc["dynamic_A"] != "off" and t.outcome[0] == "return":
+            tolerant = [e for e in t.events if e.kind == "call" and e.name.split(".")[-1] in ("allclose", "isclose", "array_equiv")]
+            final = [e.value for e in t.stores("current_A_applied")]
+            kept = bool(final) and render(final[-1]) == "A_new"
+            if tolerant:
+                # a tolerance test: the baseline may only move when the operators are refreshed
+                refreshed = any("A_new" in " ".join(terms(e.args[0])) for e in t.calls("set_link_exponents") if e.args)
+                if kept and not refreshed:
+                    tol_bad.append(f"[{tag}] the baseline is overwritten although the refresh was skipped by a tolerance test")
+            elif not kept:
+                base_bad.append(f"[{tag}] self.current_A_applied ends as {render(final[-1]) if final else 'the old value'}, not the potential of this step")
+    if n_refresh < 2:
+        raise AnalysisError("update() never hands a vector potential to the operators in any scenario")
+    ctx.ob("R10.5", "a changed applied potential reaches the operators before the psi update", not stale, detail=stale[:4], where=fu.fq,
+           construct="refresh for a time-dependent applied potential", loc=loc(fu, fu.node), message=f"{stale[:1]}",
            consequence="operators are never refreshed for one kind of vector-potential change")
-    screening_staleness(ctx, fu, calls)
-
-
-def screening_staleness(ctx, fu, calls):
-    """R10.6: with screening on, the psi update always runs with link variables of the latest induced potential."""
-    from ..cfg import build_cfg
-    fn = fu.node
-    induced, applied = update_roles(fn)
-    cfg = build_cfg(fn)
-    euler = [n for n in cfg.nodes if n.kind == "stmt" and n.ast is not None and any(
-        isinstance(c, ast.Call) and norm(c.func) == "self.adaptive_euler_step" for c in ast.walk(n.ast))]
-    if len(euler) != 1:
-        raise AnalysisError("update() no longer has exactly one adaptive_euler_step call")
-    E = euler[0].id
-    refresh = []
-    for c in calls:
-        names = {x.id for a in c.args for x in ast.walk(a) if isinstance(x, ast.Name)}
-        if induced in names and applied in names:
-            for n in cfg.nodes:
-                if n.kind == "stmt" and n.ast is not None and any(x is c for x in ast.walk(n.ast)):
-                    refresh.append(n.id)
-    defs = [n for n in cfg.nodes if n.kind == "stmt" and isinstance(n.ast, ast.Assign) and any(
-        isinstance(x, ast.Name) and x.id == induced and isinstance(x.ctx, ast.Store) for t in n.ast.targets for x in ast.walk(t))]
-    # prune the branches on which screening is off
-    off = set()
-    for n in cfg.nodes:
-        if n.kind == "if" and n.ast is not None and norm(n.ast.test).endswith(".include_screening"):
-            off |= {v for v, lab in cfg.succ[n.id] if lab == "false"}
-    for d in defs:
-        wit = cfg.path(d.id, E, skip=set(refresh) | off, skip_edges=("exc",))
-        ctx.ob("R10.6", f"every path from `{norm(d.ast)[:60]}` to the psi update refreshes the link variables with current_A_applied + A_induced",
-               wit is None and bool(refresh), detail={"refresh_sites": len(refresh), "path": cfg.describe_path(wit)[-8:] if wit else None},
-               where=fu.fq, construct=f"A_induced defined at `{norm(d.ast)[:50]}` reaches the psi update", loc=loc(fu, d.ast),
-               message="the order-parameter update can run with link variables that do not include the latest induced vector potential",
-               consequence="with screening on, a step (or a screening iteration) uses stale covariant operators",
-               witness={"path": cfg.describe_path(wit)[-8:] if wit else None})
+    ctx.ob("R10.5", "exactly-guarded refresh keeps its baseline current: self.current_A_applied ends as the potential of this step, refreshed or not",
+           not base_bad, detail=base_bad[:4], where=fu.fq, construct="baseline of the change test [baseline update]", loc=loc(fu, fu.node),
+           message=f"{base_bad[:1]}",
+           consequence="a vector potential that changes and later returns to the stale reference value (pulse 0 -> B -> 0) "
+                       "is taken for unchanged and the operators of the previous value stay in use")
+    ctx.ob("R10.5", "a tolerance-guarded refresh keeps its baseline: the reference moves only when the operators are refreshed", not tol_bad,
+           detail=tol_bad[:4], where=fu.fq, construct="tolerance-guarded refresh", loc=loc(fu, fu.node), message=f"{tol_bad[:1]}",
+           consequence="a vector potential ramped by less than rtol=1e-5 per step never refreshes the "
+                       "link variables (e.g. LinearRamp over 20000 steps: 0 refreshes, stale operators)")
+    ctx.ob("R10.6", "with screening on, every psi update runs right after a refresh with (applied + latest induced) potential", not stale6,
+           detail=stale6[:4], where=fu.fq, construct="A_induced reaches the psi update through a refresh", loc=loc(fu, fu.node),
+           message=f"the order-parameter update can run with link variables that do not include the latest induced vector potential: {stale6[:1]}",
+           consequence="with screening on, a step (or a screening iteration) uses stale covariant operators")
 
 
 # ---------------------------------------------------------------------------
